@@ -109,4 +109,15 @@ instance (d : Doc) : Decidable d.Fresh := by unfold Fresh; infer_instance
 
 end Doc
 
+/-- `source.trailing` with its final linebreak / empty-line tokens popped (0 = linebreak, 1 = empty line) -/
+def stripLayoutTail (t : Payload) : Payload :=
+  (t.reverse.dropWhile (fun t => t == 0 || t == 1)).reverse
+/-- SPEC: what `remove_value` leaves in `source.trailing` after pruning the last let layer whose
+    stashed `body_after` is `bodyAfter` -/
+def restoredTrailing (trailing bodyAfter : Payload) : Payload :=
+  let t1 := stripLayoutTail trailing
+  let t2 := if bodyAfter.isEmpty then t1
+            else if t1.isEmpty then bodyAfter else t1 ++ bodyAfter.filter (!t1.contains ·)
+  if t2.isEmpty && !trailing.isEmpty then trailing else t2
+
 end Nima
